@@ -4,6 +4,7 @@ import (
 	"fmt"
 	"go/token"
 	"go/types"
+	"morlockverif/checker/internal/core"
 	"strings"
 
 	"golang.org/x/tools/go/ssa"
@@ -67,7 +68,7 @@ func newGameModel(c *Ctx, rule string) *gameModel {
 	for _, blk := range blocks {
 		for _, ins := range blk.Instrs {
 			if st, ok := ins.(*ssa.Store); ok {
-				if n, f, _, ok := addrField(st.Addr); ok && n.Obj().Name() == "node" && f == "noprogress" {
+				if n, f, _, ok := addrField(st.Addr); ok && core.ObjName(n.Obj()) == "node" && f == "noprogress" {
 					if call, ok := st.Val.(*ssa.Call); ok {
 						g.updNP = call.Call.StaticCallee()
 					}
@@ -207,7 +208,7 @@ func structField(v absint.Value, name string) (absint.Value, bool) {
 	}
 	stt := s.T.Underlying().(*types.Struct)
 	for i := 0; i < stt.NumFields(); i++ {
-		if stt.Field(i).Name() == name {
+		if core.FieldName(stt.Field(i)) == name {
 			return s.F[i], true
 		}
 	}
